@@ -692,6 +692,11 @@ def c10(run):
     run.trace_leg("transparent_rel", ["machine", "kind=transparent"], spec="TV_Pairs", cfg="TV_Pairs.cfg",
                   verdict=PAIRV + ["interrupt-not-transparent"], expect_all=False, path=path)
     run.trace_leg("int", ["machine", "kind=int"], verdict=["intgate", "panic"])
+    # RP: every single placement MC_Interrupt explores (program priority 0 and 4) replayed on the real simulator; the model
+    # shows transparency for runs that follow the specification, so conformance of these runs decides with IntGate
+    for pp in (0, 4):
+        run.rp_leg("rp_interrupt_p%d" % pp, "MC_InterruptRP", "MC_InterruptRP_p%d.cfg" % pp, "interrupt", "MC_Interrupt_ops.ndjson",
+                   verdict=CONF + ["intgate"], workers=8)
     return run.finish(
         rule="a program with a stack, stores and OS output, and a handler that saves/restores what it uses and returns "
              "with RTI: one interrupt placed at every instruction boundary (all boundaries in thorough, every 3rd in "
